@@ -92,6 +92,22 @@ pub fn spaces(tier: Tier) -> Vec<Space<'static>> {
             for c in crate::calls::edit_calls_from(v, &o, text.clone().into_bytes()) {
                 judge(&c, acc, &ctx);
             }
+            // ... and as the SECOND (text) operand of a JSONB first operand
+            for (q, qb) in p7.iter().take(4) {
+                let len = ops::array_length(q).unwrap_or(1) as i32;
+                let mut calls: Vec<Call> = vec![];
+                for (k, flag) in [("a", true), ("zz", false), ("a", false)] {
+                    let (x, y) = (qb.clone(), text.clone().into_bytes());
+                    calls.push(Call { label: format!("object_insert({:?},{:?},text s,{})", q, k, flag), expect: ops::object_insert(q, k, v, flag), run: Box::new(move |buf| jsonb::object_insert(&x, k, &y, flag, buf)) });
+                }
+                for pos in [0, -1, len] {
+                    let (x, y) = (qb.clone(), text.clone().into_bytes());
+                    calls.push(Call { label: format!("array_insert({:?},{},text s)", q, pos), expect: Ok(ops::array_insert(q, pos, v)), run: Box::new(move |buf| jsonb::array_insert(&x, pos, &y, buf)) });
+                }
+                for c in calls {
+                    judge(&c, acc, &ctx);
+                }
+            }
         }));
     }
     let ko = refmodel::gen::keyorder_docs();
